@@ -41,6 +41,12 @@ BENIGN = [
     ("broadcaster-two-uuids", ["C13"], [("pylife/core/broadcaster.py",
       "        this_uuid = uuid.uuid4().hex\n", "        uuid.uuid4()\n        this_uuid = 'lvl-' + uuid.uuid4().hex\n", 1)]),
     ("broadcaster-rename-cache", ["C13"], [("pylife/core/broadcaster.py", "index_levels", "level_values", -1)]),
+    ("broadcast-scalar-returns-copy", ["C13"], [("pylife/core/broadcaster.py",
+      "        return pd.Series(parameter, index=self._obj.index), self._obj\n",
+      "        return pd.Series(parameter, index=self._obj.index), self._obj.copy()\n", 1)]),
+    ("vmap-default-names-copied", ["C20"], [(V + "vmap_import.py",
+      "                column_names = vmap_structures.column_names[var_name][0]\n",
+      "                column_names = list(vmap_structures.column_names[var_name][0])\n", 1)]),
     ("woehler-k-float32-free", ["C13"], [("pylife/materiallaws/woehlercurve.py",
       "        cycles = np.full_like(ld, np.inf)\n", "        cycles = np.full(np.shape(ld), np.inf, dtype=np.float64)\n", 1)]),
 ]
